@@ -22,6 +22,7 @@
 import SmrtVerif.Model.Emmodel
 import SmrtVerif.Proofs.Emmodel
 import SmrtVerif.Proofs.Romberg
+import SmrtVerif.Props.C15
 
 set_option linter.unusedVariables false
 
@@ -296,5 +297,41 @@ theorem iba_epseff_im_bound (v : IbaVariant) (f : ℝ) (e0 eps e : Cx ℝ) (h : 
 
 example : epsGuard (⟨2, -1e-3⟩ : Cx ℝ) = .error .smrt := (epseff_guard _).1 (by norm_num)
 example : epsGuard (⟨2, 1e-3⟩ : Cx ℝ) = .ok ⟨2, 1e-3⟩ := (epseff_guard _).2 (by norm_num)
+
+/-- IBA with the Maxwell Garnett mixing formula (`iba_maxwell_garnett`): for passive constituents the effective permittivity it returns
+    is passive and its absorption coefficient is non-negative - the `maxwellGarnett` third of `iba_ka_nonneg_full` -/
+theorem iba_mg_ka_nonneg (ft : ℝ → ℝ) (f : ℝ) (e0 eps : Cx ℝ) (freq : ℝ) (o : IbaOut ℝ)
+    (hf0 : 0 ≤ f) (hf1 : f ≤ 1) (h0 : 0 < e0.re) (he : 0 < eps.re) (h0i : 0 ≤ e0.im) (hei : 0 ≤ eps.im) (hfr : 0 ≤ freq)
+    (h : iba .maxwellGarnett ft Real.pi f e0 eps freq = .ok o) : 0 ≤ o.ka ∧ 0 ≤ o.eps.im := by
+  rcases e0 with ⟨a, b⟩; rcases eps with ⟨c, d⟩
+  simp only at h0 he h0i hei
+  have hD : (⟨c, d⟩ : Cx ℝ) + Cx.smul 2 ⟨a, b⟩ - Cx.smul f (⟨c, d⟩ - ⟨a, b⟩) ≠ Mixing.czero := by
+    intro hh
+    have := congrArg Cx.re hh
+    change c + 2 * a - f * (c - a) = 0 at this
+    nlinarith
+  have hP : (⟨c, d⟩ : Cx ℝ) + Cx.smul 2 ⟨a, b⟩ ≠ Mixing.czero := by
+    intro hh
+    have := congrArg Cx.re hh
+    change c + 2 * a = 0 at this
+    linarith
+  have hmg := (Props.C15.mg_spheres_eq_general_eq_hs f ⟨a, b⟩ ⟨c, d⟩ hf1 hD hP).2.1
+  have him := Mixing.mgSpheres_im_nonneg f a b c d hf0 hf1 h0 he h0i hei
+  unfold iba at h
+  have heps : ibaEpsEff .maxwellGarnett f ⟨a, b⟩ ⟨c, d⟩ = .ok (Mixing.mgSpheres f ⟨a, b⟩ ⟨c, d⟩) := by
+    unfold ibaEpsEff ibaMixing depolSph
+    rw [hmg]
+    show epsGuard _ = _
+    exact (epseff_guard _).2 (by linarith)
+  rw [heps] at h
+  simp only [bind, Except.bind, pure, Except.pure, Except.ok.injEq] at h
+  subst h
+  refine ⟨?_, him⟩
+  have hk : 0 ≤ waveNumber Real.pi freq := by
+    unfold waveNumber cSpeed
+    have := Real.pi_pos
+    positivity
+  exact iba_ka_nonneg_partial .maxwellGarnett f (waveNumber Real.pi freq)
+    (meanSqFieldRatio .maxwellGarnett (Mixing.mgSpheres f ⟨a, b⟩ ⟨c, d⟩) ⟨a, b⟩ ⟨c, d⟩) (Mixing.mgSpheres f ⟨a, b⟩ ⟨c, d⟩) ⟨c, d⟩ hf0 hk hei him
 
 end Smrt.Props.C10
